@@ -459,7 +459,8 @@ class TG:
             h = rng.pick(["lookup", "eq", "gt", "len", "not", "and", "or", "lt", "ne", "log"] + list(self.helpers.keys()))
             if h == "log":
                 # writes nothing; a bad level is an error
-                lvl = rng.pick(["", "", " level=\"info\"", " level=\"WARN\"", " level=\"trace\"", " level=\"loud\"", " level=1"])
+                lvl = rng.pick(["", "", " level=\"info\"", " level=\"WARN\"", " level=\"trace\"", " level=\"loud\"", " level=1", " level=\"off\"",
+                                " level=\"OFF\"", " level=\"debug\"", " level=\"Error\"", " level=\"\"", " level=null", " level=missing.p"])
                 return "{{" + t1 + "log " + " ".join(self.arg(scopes) for _ in range(rng.range(0, 2))) + lvl + t2 + "}}"
             if self.helpers.get(h) == "evalp":
                 p, _ = self.path_in(scopes)
